@@ -238,6 +238,9 @@ def check_valid(sym: Symbol, s: str) -> Tuple[bool, Optional[str]]:
         int(s, base)
     except ValueError:
         return False, f"'{s}' is a malformed {TYPE_TO_STR[sym.orig_type]} value"
+    if sym.orig_type == HEX and (int(s, base) < 0 or s.strip()[:1] in ("+", "-")):
+        # hex values are non-negative and get a "0x" prefix prepended: a sign would make the result unparsable
+        return False, f"'{s}' is a malformed {TYPE_TO_STR[sym.orig_type]} value"
 
     for low_sym, high_sym, cond in sym.ranges:
         if expr_value(cond):
